@@ -563,9 +563,21 @@ func (ctx *RequestContext) Path() []byte {
 	return ctx.URI().Path()
 }
 
+// resetResponse resets the response like Response.Reset, but keeps a hijack writer that has
+// already written the response head: what is on the wire (the head, chunks) can only be continued
+// and finished by that writer. Forgetting it would make the server write a second head into the
+// open body. A writer that has not written anything yet is dropped as before.
+func (ctx *RequestContext) resetResponse() {
+	w := ctx.Response.GetHijackWriter()
+	ctx.Response.Reset()
+	if s, ok := w.(interface{ WroteHeader() bool }); ok && s.WroteHeader() {
+		ctx.Response.HijackWriter(w)
+	}
+}
+
 // NotModified resets response and sets '304 Not Modified' response status code.
 func (ctx *RequestContext) NotModified() {
-	ctx.Response.Reset()
+	ctx.resetResponse()
 	ctx.SetStatusCode(consts.StatusNotModified)
 }
 
@@ -776,7 +788,7 @@ func (ctx *RequestContext) Method() []byte {
 
 // NotFound resets response and sets '404 Not Found' response status code.
 func (ctx *RequestContext) NotFound() {
-	ctx.Response.Reset()
+	ctx.resetResponse()
 	ctx.SetStatusCode(consts.StatusNotFound)
 	ctx.SetBodyString(consts.StatusMessage(consts.StatusNotFound))
 }
@@ -1107,7 +1119,7 @@ func (ctx *RequestContext) AbortWithStatus(code int) {
 //
 // Warning: this will reset the response headers and body already set!
 func (ctx *RequestContext) AbortWithMsg(msg string, statusCode int) {
-	ctx.Response.Reset()
+	ctx.resetResponse()
 	ctx.SetStatusCode(statusCode)
 	ctx.SetContentTypeBytes(bytestr.DefaultContentType)
 	ctx.SetBodyString(msg)
